@@ -26,9 +26,13 @@ RULE = (
     'run-structured, constant; the 24 lowest and highest bits are drawn explicitly so that the '
     'tail byte and the wrap-around windows vary), lengths at every residue mod 8 and within +-9 '
     'of 50*2^m, 8k and 2^e; (4) deterministic grids over the FrequencyCount threshold '
-    '50*2^m < length, run lengths 1..260 / 1100 and matrix row counts around 32/50/256/8192; '
+    '50*2^m < length (m = 1..10 / 12, offsets -2..+9, both wrap flags), every block size and '
+    'interleaving factor 1..70 / 130, run lengths 1..260 / 1100 and matrix row counts around '
+    '32/50/256/8192 (up to 9000 / 16385 rows); '
     '(5) Hypothesis-drawn matrices with zero, duplicate, dependent, sparse, gapped and low-rank '
-    'rows. Oracles are refs/bits_ref.py (definitions on Python bit lists; rank by basis '
+    'rows; (6) thorough tier only, and only when atheris is importable from /opt/veriftools/pyvenv: '
+    'four coverage-guided campaigns over the same oracles (a crash input counts only after it is '
+    're-evaluated in-process). Oracles are refs/bits_ref.py (definitions on Python bit lists; rank by basis '
     'insertion, cross-checked with list-of-lists Gauss-Jordan). The code path a case takes is '
     'computed from the size conditions written in util.py and recorded as a class label. A case '
     'is non-trivial when it takes a size-selected fast path (4-bit-stride counting, byte-aligned '
